@@ -20,6 +20,8 @@ fn https_uri(auth: &str, path: &str) -> uri::Https {
     let host = match auth {
         "a" => "rrdp.example.org",
         "A" => "RRDP.Example.ORG",
+        "ax" => "rrdp.example.org.evil.example",
+        "ap" => "rrdp.example.org:8443",
         _ => "other.example.net:8443",
     };
     uri::Https::from_str(&format!("https://{host}/{path}")).unwrap()
@@ -39,6 +41,33 @@ fn data_of(d: &str) -> Bytes {
 fn ser(v: &Value, sermax: u64) -> u64 {
     let x = v.as_u64().unwrap();
     if x == sermax { u64::MAX } else if x == sermax - 1 { u64::MAX - 1 } else { x }
+}
+
+/// a notification file with `n` delta entries (more than one element budget in total) must parse back
+fn replay_bulk(s: &mut Summary, c: &Value) {
+    let n = c["n"].as_u64().unwrap();
+    let session = Uuid::from_u128(0x0123_4567_89ab_cdef_0123_4567_89ab_cdef);
+    let r = guarded(|| -> Result<(), (String, String)> {
+        let deltas: Vec<DeltaInfo> = (1..=n).map(|i| DeltaInfo::new(i, https_uri("a", &format!("deltas/{i:08}/a-rather-long-path-segment-to-make-entries-big/delta.xml")), hash_of("h1"))).collect();
+        let snap = UriAndHash::new(https_uri("a", "s/snapshot.xml"), hash_of("h1"));
+        let file = NotificationFile::new(session, n, snap, deltas.clone());
+        let mut xml = Vec::new();
+        file.write_xml(&mut xml).map_err(|e| ("write".to_string(), e.to_string()))?;
+        if xml.len() < 1_500_000 {
+            return Err(("bulk:too-small".into(), format!("the bulk notification is only {} bytes", xml.len())));
+        }
+        let back = NotificationFile::parse(xml.as_slice()).map_err(|e| ("roundtrip:parse".to_string(), format!("own XML ({} bytes, {n} deltas) does not parse: {e}", xml.len())))?;
+        if back.deltas().len() != deltas.len() || back.deltas().iter().zip(&deltas).any(|(a, b)| a.serial() != b.serial() || a.uri() != b.uri()) {
+            return Err(("roundtrip:value".into(), "bulk notification parses back to a different value".into()));
+        }
+        Ok(())
+    });
+    match r {
+        Ok(Ok(())) => {}
+        Ok(Err((k, m))) => s.violation(&k, m, c.clone()),
+        Err(m) => s.violation("panic", m, c.clone()),
+    }
+    s.eval(Some("bulk"));
 }
 
 fn replay_doc(s: &mut Summary, c: &Value) {
@@ -129,7 +158,7 @@ pub fn replay(args: &[String]) {
     let cases = read_cases(&args[0]);
     let mut s = Summary::new();
     for c in &cases {
-        replay_doc(&mut s, c);
+        if c["op"] == "bulk" { replay_bulk(&mut s, c); } else { replay_doc(&mut s, c); }
         if s.samples.len() < 3 && s.evaluations % 40009 == 17 {
             s.sample(c.clone());
         }
